@@ -38,6 +38,7 @@ type Contract struct {
 	Assumes      []*Clause
 	Hints        []*Clause
 	Abstracts    []*Clause
+	AtNext       []*Clause // continuation postconditions: must hold at every call of the parameter `next`
 	Invariants   map[int][]*Clause
 	LoopModifies map[int][]string
 	NoPanic      bool
@@ -86,7 +87,15 @@ type ContractSet struct {
 	KVStores map[string]KVDecl // package path -> store declaration
 	Globals  map[string][]GlobalFact // package path -> facts about package-level variables
 	Impls    map[string]string // interface type string -> concrete type string
+	TypeTags []TypeTagDecl
 	Files    []string
+}
+
+// TypeTagDecl: `typetag isFoo asFoo *pkg/path.Foo` declares a predicate on interface values (dynamic type is *Foo)
+// and the accessor returning the boxed value.
+type TypeTagDecl struct {
+	Pred, Acc, Type string
+	Pkg             string
 }
 
 type GlobalFact struct {
@@ -112,7 +121,7 @@ type GhostDecl struct {
 var clauseKw = map[string]bool{
 	"func": true, "extern": true, "requires": true, "ensures": true, "nopanic": true, "modifies": true,
 	"pure": true, "inline": true, "loop": true, "let": true, "assume": true, "trusted": true, "prelude": true,
-	"lemma": true, "panics_unless": true, "props": true, "ghost": true, "end": true, "modifies_ptr": true, "kvstore": true, "hint": true, "vars": true, "call": true, "show": true, "use": true, "abstracts": true, "global": true, "implements": true,
+	"lemma": true, "panics_unless": true, "props": true, "ghost": true, "end": true, "modifies_ptr": true, "kvstore": true, "hint": true, "vars": true, "call": true, "show": true, "use": true, "abstracts": true, "global": true, "implements": true, "typetag": true, "at_next": true,
 }
 
 var labelRe = regexp.MustCompile(`^@([A-Za-z0-9_\-]+)\s*`)
@@ -232,6 +241,11 @@ func (cs *ContractSet) LoadFile(path, pkg string) error {
 				return fmt.Errorf("%s: %v", where, err)
 			}
 			cs.Globals[pkg] = append(cs.Globals[pkg], GlobalFact{Var: fields[1], E: e, Text: txt})
+		case "typetag":
+			if len(fields) < 4 {
+				return fmt.Errorf("%s: typetag needs predicate, accessor and type", where)
+			}
+			cs.TypeTags = append(cs.TypeTags, TypeTagDecl{Pred: fields[1], Acc: fields[2], Type: fields[3], Pkg: pkg})
 		case "implements":
 			// implements InterfaceName concrete/type/path.Type
 			if len(fields) < 3 {
@@ -322,7 +336,7 @@ func (cs *ContractSet) LoadFile(path, pkg string) error {
 					return fmt.Errorf("%s: %v", where, err)
 				}
 				cur.Lets = append(cur.Lets, LetDef{strings.TrimSpace(rest[:idx]), e})
-			case "requires", "ensures", "panics_unless", "assume", "hint", "abstracts":
+			case "requires", "ensures", "panics_unless", "assume", "hint", "abstracts", "at_next":
 				cl, err := parseClause(kw, rest, where)
 				if err != nil {
 					return err
@@ -342,6 +356,11 @@ func (cs *ContractSet) LoadFile(path, pkg string) error {
 					cur.Assumes = append(cur.Assumes, cl)
 				case "abstracts":
 					cur.Abstracts = append(cur.Abstracts, cl)
+				case "at_next":
+					if cl.Label == "" {
+						cl.Label = strconv.Itoa(len(cur.AtNext))
+					}
+					cur.AtNext = append(cur.AtNext, cl)
 				case "hint":
 					if cl.Label == "" {
 						cl.Label = strconv.Itoa(len(cur.Hints))
@@ -511,7 +530,7 @@ func (c *Contract) HasProp(p string) bool {
 			return true
 		}
 	}
-	for _, cl := range c.Ensures {
+	for _, cl := range append(append([]*Clause{}, c.Ensures...), c.AtNext...) {
 		for _, q := range cl.Props {
 			if q == p {
 				return true
